@@ -46,6 +46,11 @@ type c10Case struct {
 	//   literal-of-meta  the earlier change uses "mv" as a literal name
 	// Metavariables are declared per change.
 	Prelude string `json:"prelude,omitempty"`
+	// RenameTo ('-' package clause only): the change renames the package,
+	// to the name the file has ("file") or to another one ("other"). The
+	// '-' clause is still the guard: a file that already is of the new
+	// package is not a file of the old one.
+	RenameTo string `json:"rename_to,omitempty"`
 }
 
 // c10GuardedPath returns the guarded import path and the package name a tool
@@ -182,7 +187,16 @@ func c10Build(cs *c10Case) (patch, file string) {
 	}
 	guardPkg, filePkg, _ := c10PkgNames(cs.Pkg)
 	if guardPkg != "" {
-		p.WriteString(pfx + "package " + guardPkg + "\n\n")
+		p.WriteString(pfx + "package " + guardPkg + "\n")
+		if cs.LineKind == "minus" {
+			switch cs.RenameTo {
+			case "file":
+				p.WriteString("+package " + filePkg + "\n")
+			case "other":
+				p.WriteString("+package renamed\n")
+			}
+		}
+		p.WriteString("\n")
 	}
 	switch cs.PatchForm {
 	case "unnamed":
@@ -341,7 +355,7 @@ func evalC10(cs *c10Case) (sig, msg string, applies bool) {
 		return "apply-error", fmt.Sprintf("Apply fails: %s\npatch:\n%s\nfile:\n%s", r.ApplyErr, patch, file), want
 	}
 	got := bytes.Contains(r.Out, []byte("tgq(1)"))
-	desc := fmt.Sprintf("prelude %q, metavariable named like the package: %v, ", cs.Prelude, cs.MetaPkg) + fmt.Sprintf("patch form %s (%s line), file imports the path as %v (path style %q, literal spelled %q), layout %s, package clause %s, second guard %s, body %q", cs.PatchForm, cs.LineKind, cs.FileForms, cs.PathStyle, cs.Spelling, cs.Layout, cs.Pkg, cs.Second, cs.Body)
+	desc := fmt.Sprintf("prelude %q, metavariable named like the package: %v, package renamed to %q, ", cs.Prelude, cs.MetaPkg, cs.RenameTo) + fmt.Sprintf("patch form %s (%s line), file imports the path as %v (path style %q, literal spelled %q), layout %s, package clause %s, second guard %s, body %q", cs.PatchForm, cs.LineKind, cs.FileForms, cs.PathStyle, cs.Spelling, cs.Layout, cs.Pkg, cs.Second, cs.Body)
 	switch {
 	case want && !got:
 		multi := ""
@@ -418,7 +432,7 @@ func TestC10(t *testing.T) {
 											continue // no guard at all
 										}
 										variants := []*c10Case{{PatchForm: pf, FileForms: fs, Layout: lo, Pkg: pk, LineKind: lk, Second: sd, Body: body, PathStyle: style, Spelling: spelling}}
-										if body == "" && style == "" && spelling == "" && sd == "none" && pf == "meta" && (lo == "group" || lo == "singles-among" || lo == "reversed-group") {
+										if body == "" && style == "" && spelling == "" && (sd == "none" || sd == "satisfied") && pf == "meta" && (lo == "group" || lo == "singles-among" || lo == "reversed-group") {
 											named := len(fs) > 0
 											for _, ff := range fs {
 												if ff != "nm" && ff != "other" && ff != "mv" && ff != "guess" {
@@ -436,6 +450,13 @@ func TestC10(t *testing.T) {
 												v := *variants[0]
 												v.MetaPkg = true
 												variants = append(variants, &v)
+											}
+											if pk != "absent" && lk == "minus" {
+												for _, to := range []string{"file", "other"} {
+													v := *variants[0]
+													v.RenameTo = to
+													variants = append(variants, &v)
+												}
 											}
 											if pf == "named" {
 												v := *variants[0]
@@ -483,6 +504,9 @@ func TestC10(t *testing.T) {
 			PathStyle: rapid.SampledFrom(c10Styles).Draw(rt, "style"),
 			Spelling:  rapid.SampledFrom(c10Spellings).Draw(rt, "spelling"),
 			MetaPkg:   rapid.IntRange(0, 3).Draw(rt, "metaPkg") == 0,
+		}
+		if cs.LineKind == "minus" && cs.Pkg != "absent" {
+			cs.RenameTo = rapid.SampledFrom([]string{"", "", "file", "other"}).Draw(rt, "renameTo")
 		}
 		switch cs.PatchForm {
 		case "named":
